@@ -14,6 +14,43 @@ from .c19_norm import normalise, normal_form
 DUNDER_OP = {'__lt__': 'lt', '__gt__': 'gt', '__le__': 'le', '__ge__': 'ge'}
 
 
+def class_methods(mod: Module, cls: str) -> T.Dict[str, T.Any]:
+    """The methods of `cls` by name, including those that the class body *generates*: `__lt__ = _template(operator.lt)`
+    where `_template(p..)` is a function of the class body that defines one nested function and returns it (the nested
+    function with the template's parameters replaced by the arguments), and plain aliases `a = b` of methods."""
+    meths: T.Dict[str, T.Any] = dict(mod.methods(cls))
+    body = mod.cls(cls).body
+    local = {st.name: st for st in body if isinstance(st, (ast.FunctionDef, ast.AsyncFunctionDef))}
+    for st in body:
+        if not (isinstance(st, ast.Assign) and all(isinstance(t, ast.Name) for t in st.targets)):
+            continue
+        made: T.Optional[T.Any] = None
+        v = st.value
+        if isinstance(v, ast.Name) and v.id in local:
+            made = local[v.id]
+        elif isinstance(v, ast.Call) and isinstance(v.func, ast.Name) and v.func.id in local and not any(isinstance(a, ast.Starred) for a in v.args) \
+                and all(k.arg is not None for k in v.keywords):
+            tmpl = local[v.func.id]
+            inner = [x for x in tmpl.body if isinstance(x, (ast.FunctionDef, ast.AsyncFunctionDef))]
+            rest = [x for x in tmpl.body if not isinstance(x, (ast.FunctionDef, ast.AsyncFunctionDef)) and not (isinstance(x, ast.Expr) and isinstance(x.value, ast.Constant))]
+            params = [a.arg for a in tmpl.args.posonlyargs + tmpl.args.args]
+            if len(inner) == 1 and len(rest) == 1 and isinstance(rest[0], ast.Return) and isinstance(rest[0].value, ast.Name) and rest[0].value.id == inner[0].name \
+                    and not tmpl.args.vararg and not tmpl.args.kwarg and len(v.args) <= len(params) and not inner[0].decorator_list:
+                bound = dict(zip(params, v.args))
+                bound.update({k.arg: k.value for k in v.keywords if k.arg in params})        # type: ignore[misc]
+                shadow = {a.arg for a in inner[0].args.posonlyargs + inner[0].args.args + inner[0].args.kwonlyargs}
+                stores = {n.id for n in ast.walk(inner[0]) if isinstance(n, ast.Name) and isinstance(n.ctx, (ast.Store, ast.Del))}
+                if set(bound) == set(params) and not (set(params) & (shadow | stores)):
+                    made = copy.deepcopy(inner[0])
+                    made.body = [tables._Subst(dict(bound)).visit(x) for x in made.body]      # type: ignore[attr-defined]
+        if made is not None:
+            for t in st.targets:
+                m2 = copy.copy(made)
+                m2.name = t.id          # type: ignore[attr-defined]
+                meths[t.id] = m2        # type: ignore[attr-defined]
+    return meths
+
+
 class CoreInfo(T.NamedTuple):
     name: str                 # method name (as written in the class) or module-level function name
     fn: T.Any                 # the FunctionDef
@@ -28,7 +65,7 @@ class CoreInfo(T.NamedTuple):
 def _bind_core_call(mod: Module, cls: str, call: ast.Call) -> T.Optional[T.Tuple[str, T.Any, bool, T.Dict[str, ast.AST]]]:
     """Resolve the callee of a dunder's comparing call and bind the arguments to its parameters by signature.
     Forms: `self.m(..)`, `Cls.m(self, ..)`, module-level `f(..)` (E2 of the catalogue).  None: not such a call."""
-    meths = mod.methods(cls)
+    meths = class_methods(mod, cls)
     f = call.func
     recv: T.Optional[ast.AST] = None
     if isinstance(f, ast.Attribute) and attr_chain(f.value) == 'self':
@@ -69,7 +106,7 @@ def _bind_core_call(mod: Module, cls: str, call: ast.Call) -> T.Optional[T.Tuple
 def core_info(mod: Module, cls: str, ctx: T.Optional[RuleCtx] = None) -> CoreInfo:
     """The comparison core of `cls`, found by role: what the four ordering dunders call with operator.lt/gt/le/ge.
     With `ctx`, the obligations of C19.R1 (right operator per dunder, other operand handed over, one core) are emitted."""
-    meths = mod.methods(cls)
+    meths = class_methods(mod, cls)
     infos: T.Dict[str, CoreInfo] = {}
     for dunder, op in DUNDER_OP.items():
         if dunder not in meths:
@@ -145,7 +182,7 @@ def core_info(mod: Module, cls: str, ctx: T.Optional[RuleCtx] = None) -> CoreInf
 def one_core(ctx: RuleCtx, mod: Module, cls: str) -> T.Optional[str]:
     """__lt__/__gt__/__le__/__ge__ delegate to one core method with operator.lt/gt/le/ge;
     __eq__/__ne__/__hash__ read the same single field.  Returns the core method name."""
-    meths = mod.methods(cls)
+    meths = class_methods(mod, cls)
     info = core_info(mod, cls, ctx)
     # equality / hash are decided on the same single field (read from the decision tables, so `not self == other`,
     # a renamed parameter or an early `return NotImplemented` guard make no difference)
